@@ -219,7 +219,13 @@ def r5(ctx, F, fn):
         elif n.get("k") == "Match" and n.get("src") == "Normal":
             seq.append("match")
         elif n.get("k") == "Assign" and hir.strip(n["l"]).get("k") == "Field" and hir.strip(n["l"])["name"] == "current_player":
-            ok = sym(n["r"]) == ("call", "chess::Player::the_other", (("field", ("var", "self"), "current_player"),))
+            want_flip = ("call", "chess::Player::the_other", (("field", ("var", "self"), "current_player"),))
+            ok = sym(n["r"]) == want_flip
+            if not ok:
+                # the mover read into a local first: the same value as long as this is the only assignment of the side in the function
+                n_assign = sum(1 for x, _ in hir.walk(fn["hir"]["body"]) if x.get("k") == "Assign" and hir.strip(x["l"]).get("k") == "Field"
+                               and hir.strip(x["l"])["name"] == "current_player")
+                ok = n_assign == 1 and hir.Sym(env, F, through=True)(n["r"]) == want_flip
             seq.append("flip" if ok else "assign-player?")
         else:
             for c, anc in hir.walk(n):
